@@ -3,4 +3,5 @@
 pub mod bitwriter;
 pub mod coding;
 pub mod container;
+pub mod dct_tables;
 pub mod modular;
